@@ -156,7 +156,7 @@ func (w *worker) call(rq wReq, timeout time.Duration) (rs wResp, died string, er
 		w.cmd = nil
 		w.Deaths++
 		rs.Dec, rs.RDec = []int{}, []int{}
-		return rs, "fatal: " + first, nil
+		return rs, "fatal: " + first + " @" + siteOf(msg), nil
 	case <-time.After(timeout):
 		w.stop()
 		w.Deaths++
